@@ -26,6 +26,7 @@ EXTENDS ZogRef
 
 CONSTANTS
   SwResetCanCatchField,  \* struct loops clear the child context's CanCatch before each field
+  SwResetCanCatchElem,   \* slice loops clear it before each element (matters once an element is a Preprocess node)
   SwResetExitFieldP,     \* struct.process clears Exit before each field
   SwResetExitFieldV,     \* struct.validate clears Exit before each field
   SwResetExitElemP,      \* slices.process clears Exit before each element
@@ -222,7 +223,7 @@ SliceStart ==
 SliceElem ==
   /\ At("slice", "elems")
   /\ LET f == Top  n == f.node
-         resetCC == FALSE   \* all elements share one schema: a leaked CanCatch is always overwritten or unused
+         resetCC == SwResetCanCatchElem
          resetEx == IF Mode = "parse" THEN SwResetExitElemP ELSE SwResetExitElemV
          cx == [ctxs EXCEPT ![f.sub] = [canCatch |-> IF resetCC THEN FALSE ELSE @.canCatch,
                                         exit     |-> IF resetEx THEN FALSE ELSE @.exit]]
@@ -271,6 +272,25 @@ CustomResult ==
                     [f EXCEPT !.pc = "done"]))
 
 \* ---------------------------------------------------------------------------
+\* Preprocess (preprocess.go process): type assertion, the user's function, then the wrapped schema ON THE SAME CONTEXT
+\* ---------------------------------------------------------------------------
+PreStart ==
+  /\ At("pre", "start")
+  /\ LET f == Top  n == f.node IN
+     Commit(
+       IF StrInput(f.in, n)
+       THEN [WithTop(Cur, [f EXCEPT !.pc = "pres"]) EXCEPT !.ev = Ev("pre", CbId(f, "r", 1), "val", 0)]
+       ELSE WithTop(AddIssue(Cur, f.ctx, Iss(f.ip, "coerce", DType(n))), [f EXCEPT !.pc = "done"]))
+
+PreResult ==
+  /\ At("pre", "pres")
+  /\ LET f == Top  n == f.node IN
+     Commit(
+       IF n.ty = "ok"
+       THEN Push(WithTop(Cur, [f EXCEPT !.pc = "done"]), Frame(Elem(n), f.in, f.ip, f.dp, f.ctx, f.fe))
+       ELSE WithTop(AddIssue(Cur, f.ctx, Iss(f.ip, IF n.ty = "zerr" THEN "prez" ELSE "", DType(n))), [f EXCEPT !.pc = "done"]))
+
+\* ---------------------------------------------------------------------------
 NodeDone ==
   /\ Running /\ Top.pc = "done"
   /\ Commit([Cur EXCEPT !.stack = SubSeq(stack, 1, Len(stack) - 1),
@@ -284,6 +304,7 @@ Next ==
   \/ SliceStart \/ SliceElem
   \/ PtrStart
   \/ CustomStart \/ CustomTest \/ CustomResult
+  \/ PreStart \/ PreResult
   \/ NodeDone
 
 \* the state a call starts in
@@ -323,7 +344,7 @@ ValidOf(c, d) ==
   ELSE ValidV(c.schema, InitDestOf(c), d, <<>>)
 
 \* C02 (and C09: the right-hand side does not depend on the visit order)
-C02_Exact == done => BagOf(NonPT(issues)) = BagOf(RefIssuesOf(case))
+C02_Exact == done => BagOf(NonPT(issues)) = BagOf(NonPT(RefIssuesOf(case)))
 \* C01
 C01_SuccessValid == (done /\ issues = <<>>) => ValidOf(case, dest)
 \* C03/C04/C05 destination (on success; C05's "holds catch iff failed" is part of RefDest)
@@ -337,7 +358,7 @@ C05_NonInterference ==
   done => LET cp == CatchPathsOf(case)
               off(s) == SelectSeq(s, LAMBDA i : i.path \notin cp)
           IN /\ \A k \in DOMAIN issues : IsPTIssue(issues[k]) \/ issues[k].path \notin cp
-             /\ BagOf(off(NonPT(issues))) = BagOf(off(RefIssuesOf([case EXCEPT !.schema = Uncatch(case.schema)])))
+             /\ BagOf(off(NonPT(issues))) = BagOf(off(NonPT(RefIssuesOf([case EXCEPT !.schema = Uncatch(case.schema)]))))
 \* C12: a PostTransform is invoked only while the execution has no issue
 C12_PTOnlyWhenClean == [][ev'.e = "pt" => issues = <<>>]_vars
 \* C12: callbacks get the node's own value (primitive tests) or a non-nil pointer to its destination
